@@ -48,8 +48,13 @@ def analyse(src: Source) -> List[Report]:
     from ..config_graph import ConfigGraph
     from ..inifront import load_all
     cache = {}
+    from ..cell_rules import check_config_families
     for cfg in load_all(prog):
-        ConfigGraph(prog, cfg, cache).explore(rep, ("C11",))
+        g_ = ConfigGraph(prog, cfg, cache)
+        g_.explore(rep, ("C11",))
+        # every cell system of a configuration has exactly one cell-boundary tagger watching IT (rule set shared with C10): a
+        # boundary tagger wired to another system's label leaves this system's active unit free to leave its recorded cell
+        check_config_families(prog, cfg, g_, rep)
     rep.expect_min("R11.5-boundary-event-always-pending", 40)
     rep.expect_min("R11.1-placement-cap", 2)
     rep.expect_min("R11.2-reinsert-old-cell", 1)
